@@ -566,7 +566,8 @@ class Screen(BaseScreen, RealTerminal):
 
         def using_standout_or_underline(a: AttrSpec | str) -> bool:
             a = self._pal_attrspec.get(a, a)
-            return isinstance(a, AttrSpec) and (a.standout or a.underline)
+            # erased cells keep only the background: a line drawn through a blank has to be printed too
+            return isinstance(a, AttrSpec) and (a.standout or a.underline or a.strikethrough)
 
         encoding = util.get_encoding()
 
